@@ -41,6 +41,10 @@ claim("C05",
       "lexical/closure containment of every write statement in a Transaction literal; dataflow of contexts and connections inside the literal back to the literal's own ctx parameter; error-discipline must-pass analysis inside transaction literals; co-location of mapping and write in handler literals; single-literal rule for functions with several write operations",
       "Decides that the transaction envelope is structurally complete (statements inside, on the transaction's connection and context, errors returned, one literal per multi-write function); does not decide isolation, popx commit/rollback or database crash behaviour. Right level: whether a statement runs inside/outside a transaction closure and on which connection is a static scoping fact.")
 
+claim("C09",
+      "termination certificate for the expand recursion; dominance of the listing by the not-visited branch of the visited gate and context threading; field-read analysis of the visited key (reads namespace, object, relation on the subject-set path); def-use of every tree node's subject back to the listing; token-feeding check of the page loop; clamp evaluation; level-count arithmetic from the decrement and leaf guard",
+      "Decides termination, at-most-once expansion, edges-from-listed-tuples, page completeness, the clamp and the level bound of expand; does not decide completeness of the leaves or equality with check. Right level: each clause is a dominance/def-use fact of buildTreeRecursive and the visited gate.")
+
 for p in ["C04","C05","C06","C07","C08","C09","C11","C12","C13","C14","C16","C18","C19"]:
     na(p, NOTBUILT)
 na("C10", "semantic equivalence between the parser's output and TypeScript's grammar over all programs: precedence/associativity is not a code shape every correct parser shares; no sound structural necessary condition found (and the property is known to be violated: a||b&&c parses as (a||b)&&c), so a static green light would be misleading")
